@@ -206,79 +206,56 @@ def check(ctx: Ctx) -> None:
 
 
 def _check_init_guard(ctx: Ctx) -> None:
-    from ..cfg import build_cfg, dominates_all
+    """Engine A: Tag.__init__ over every kind of `_add_ws` value - a non-bool raises TypeError before any field is
+    stored; a bool is stored unchanged; the name is stored unchanged."""
+    from ..interp import Config, Interp
+    from ..values import ANY_VALUE_KINDS, SDict, SNew, SObj
 
     prog = ctx.prog
     fn = prog.function("htmltools._core", "Tag.__init__")
     where = "htmltools._core:Tag.__init__"
-    params = [a.arg for a in fn.args.kwonlyargs]
-    ctx.require("_add_ws" in params, "Tag.__init__ has no keyword-only `_add_ws` parameter")
-    # guard: an `if` whose test is (equivalent to) `not isinstance(_add_ws, bool)` and whose body always raises TypeError
-    guards: List[ast.If] = []
-    for st in ast.walk(fn):
-        if isinstance(st, ast.If) and _is_not_bool_test(st.test, "_add_ws") and _always_raises(st.body, "TypeError"):
-            guards.append(st)
-    stores = [st for st in ast.walk(fn) if isinstance(st, (ast.Assign, ast.AnnAssign))
-              and any(isinstance(t, ast.Attribute) and isinstance(t.value, ast.Name) and t.value.id == "self"
-                      and t.attr == "add_ws" for t in (st.targets if isinstance(st, ast.Assign) else [st.target]))]
-    ctx.require(len(stores) >= 1, "Tag.__init__ no longer stores self.add_ws")
-    if not guards:
-        ctx.fail("C19.7", where, "isinstance(_add_ws, bool) guard", "no guard rejects a non-bool `_add_ws` with TypeError",
-                 witness="Tag('div', _add_ws=1)")
-        return
-    cfg = build_cfg(fn)
-    for s in stores:
-        ok = any(dominates_all(cfg, g, s) for g in guards)
-        ctx.check(ok, "C19.7", "type guard on _add_ws dominates the store to self.add_ws", where, norm(s),
-                  "self.add_ws can be stored on a path that has not passed the bool type check",
-                  witness="Tag('div', _add_ws=1)", line=s.lineno)
-        v = s.value
-        ctx.check(isinstance(v, ast.Name) and v.id == "_add_ws", "C19.7", "self.add_ws stores the parameter itself",
-                  where, norm(s), "self.add_ws is not the `_add_ws` argument", line=s.lineno)
-    nm = [st for st in ast.walk(fn) if isinstance(st, ast.Assign) and any(
-        isinstance(t, ast.Attribute) and isinstance(t.value, ast.Name) and t.value.id == "self" and t.attr == "name"
-        for t in st.targets)]
-    ctx.require(len(nm) >= 1, "Tag.__init__ no longer stores self.name")
-    first = fn.args.args[1].arg if len(fn.args.args) > 1 else None
-    for s in nm:
-        ctx.check(isinstance(s.value, ast.Name) and s.value.id == first, "C19.7",
-                  "self.name stores the first positional parameter unchanged", where, norm(s),
-                  "the element name is transformed before being stored", line=s.lineno)
+    a = fn.args
+    ctx.require("_add_ws" in [x.arg for x in a.kwonlyargs] and a.vararg is not None and a.kwarg is not None and len(a.args) == 2,
+                "Tag.__init__ signature is no longer (self, _name, *args, _add_ws=..., **kwargs)")
+    I = Interp(prog)
+
+    def mk(run):
+        s = SNew(prog.get_class("Tag"))
+        w = SObj("_add_ws", ANY_VALUE_KINDS)
+        nm = SObj("_name", {"STR"})
+        run.__dict__["objs"] = (s, w, nm)
+        return ({a.args[0].arg: s, a.args[1].arg: nm, a.vararg.arg: (), "_add_ws": w, a.kwarg.arg: SDict()}, s)
+
+    n_bad = n_ok = 0
+    for l in I.run_function("htmltools._core", "Tag.__init__", mk, Config()):
+        s, w, nm = l.run.__dict__["objs"]
+        is_bool = w.kinds <= {"TRUE", "FALSE"}
+        stores = [e for e in l.effects if e.kind == "store_attr" and e.target is s]
+        kinds = "|".join(sorted(w.kinds)) if len(w.kinds) <= 3 else f"{len(w.kinds)} non-bool kinds"
+        extra = [x for x in l.atoms if isinstance(x[0], tuple) and x[0][0] in ("num-eq", "eq", "cmp", "in")]
+        cond = f" (when {extra[0][0][0]} holds for the value)" if extra else ""
+        if not is_bool:
+            n_bad += 1
+            rejected = l.kind == "raise" and isinstance(l.value, SNew) and l.value.cls_name == "TypeError"
+            ctx.check(rejected and not [e for e in stores if e.key == "add_ws"], "C19.7",
+                      f"_add_ws of kind {kinds} is rejected with TypeError before self.add_ws is stored", where,
+                      f"_add_ws kind {kinds}: {l.kind}{cond}",
+                      f"a non-bool `_add_ws` ({kinds}) is {'accepted' if l.kind != 'raise' else 'rejected with ' + str(getattr(l.value, 'cls_name', '?'))}{cond}",
+                      witness="Tag('div', _add_ws=1)")
+        else:
+            n_ok += 1
+            st = [e for e in stores if e.key == "add_ws"]
+            ctx.check(l.kind == "return" and len(st) == 1 and st[0].value is w, "C19.7",
+                      f"a bool _add_ws ({kinds}) is stored unchanged", where, f"_add_ws kind {kinds}: {l.kind}",
+                      f"an explicit bool `_add_ws` is not honoured: {l.kind}, stores {[short_(e.value) for e in st]}",
+                      witness="Tag('span', _add_ws=True).add_ws")
+            sn = [e for e in stores if e.key == "name"]
+            ctx.check(len(sn) == 1 and sn[0].value is nm, "C19.7", "the element name is stored unchanged", where,
+                      f"self.name = {[short_(e.value) for e in sn]}", "the element name is transformed before being stored")
+    ctx.min_count("Tag.__init__ non-bool paths", n_bad, 1)
+    ctx.min_count("Tag.__init__ bool paths", n_ok, 1)
 
 
-def _is_not_bool_test(t: ast.expr, pname: str) -> bool:
-    def is_isinst(e: ast.expr) -> bool:
-        return (isinstance(e, ast.Call) and isinstance(e.func, ast.Name) and e.func.id == "isinstance"
-                and len(e.args) == 2 and isinstance(e.args[0], ast.Name) and e.args[0].id == pname
-                and isinstance(e.args[1], ast.Name) and e.args[1].id == "bool")
-
-    if isinstance(t, ast.UnaryOp) and isinstance(t.op, ast.Not) and is_isinst(t.operand):
-        return True
-    # `type(_add_ws) is not bool`
-    if isinstance(t, ast.Compare) and len(t.ops) == 1 and isinstance(t.ops[0], (ast.IsNot, ast.NotEq)):
-        l, r = t.left, t.comparators[0]
-        if (isinstance(l, ast.Call) and isinstance(l.func, ast.Name) and l.func.id == "type" and len(l.args) == 1
-                and isinstance(l.args[0], ast.Name) and l.args[0].id == pname and isinstance(r, ast.Name) and r.id == "bool"):
-            return True
-    # `_add_ws is not True and _add_ws is not False`
-    if isinstance(t, ast.BoolOp) and isinstance(t.op, ast.And) and len(t.values) == 2:
-        seen = set()
-        for v in t.values:
-            if (isinstance(v, ast.Compare) and len(v.ops) == 1 and isinstance(v.ops[0], ast.IsNot)
-                    and isinstance(v.left, ast.Name) and v.left.id == pname
-                    and isinstance(v.comparators[0], ast.Constant) and isinstance(v.comparators[0].value, bool)):
-                seen.add(v.comparators[0].value)
-        if seen == {True, False}:
-            return True
-    return False
-
-
-def _always_raises(body: List[ast.stmt], exc: str) -> bool:
-    if not body:
-        return False
-    last = body[-1]
-    if isinstance(last, ast.Raise) and last.exc is not None:
-        e = last.exc
-        nm = e.func.id if isinstance(e, ast.Call) and isinstance(e.func, ast.Name) else (e.id if isinstance(e, ast.Name) else None)
-        return nm == exc
-    return False
+def short_(v):
+    from ..values import short
+    return short(v)
